@@ -92,7 +92,7 @@ TEXTS = {
   technique='Lean 4 proof + differential correspondence',
  ),
  'C18': dict(
-  text='Proved in Lean: mergeDevs_conserves (for every statistic additive over DevTick - commits, added, removed, changed - the total of the combined result is the sum of the inputs, for all identity lists, begin times and tick sizes). Couples (model CmM.merge of CouplesAnalysis.MergeResults + MergeReversedDictsLiteral): merge_fm_cell / merge_pm_cell (every merged cell of the file and developer coupling matrices is the sum of the input cells re-indexed onto it; unmatched author = the extra last row/column), merge_totals (matrix totals conserved), merge_files_spec (the merged file list holds exactly the names of both inputs, duplicate-free, and the merged index of each input file carries its name), merge_lines_spec / merge_lines_at (line counts add up per file name), merge_pf_spec (touched-file lists are the strictly increasing unions over the input developers of the merged identity), pmap_same_iff / pmap1_walk (two developers land in one merged row iff their identities are connected - via the C16 component theorems). Summary: car_merge_spec, car_merge_none (earliest begin, latest end, sum of commit counts; refused only when uninitialised). Models of DevsAnalysis.MergeResults, CouplesAnalysis.MergeResults, CommonAnalysisResult.Merge and MergeReversedDictsIdentities are compared with the real code on every run; a Go oracle restates the couples and summary laws on the implementation; the burndown people part is a design finding (D6, not claimed).',
+  text='Proved in Lean: mergeDevs_conserves (for every statistic additive over DevTick - commits, added, removed, changed - the total of the combined result is the sum of the inputs, for all identity lists, begin times and tick sizes). Couples (model CmM.merge of CouplesAnalysis.MergeResults + MergeReversedDictsLiteral): merge_fm_cell / merge_pm_cell (every merged cell of the file and developer coupling matrices is the sum of the input cells re-indexed onto it; unmatched author = the extra last row/column), merge_totals (matrix totals conserved), merge_files_spec (the merged file list holds exactly the names of both inputs, duplicate-free, and the merged index of each input file carries its name), merge_lines_spec / merge_lines_at (line counts add up per file name), merge_pf_spec (touched-file lists are the strictly increasing unions over the input developers of the merged identity), pmap_same_iff / pmap1_walk (two developers land in one merged row iff their identities are connected - via the C16 component theorems). Summary: car_merge_spec, car_merge_none (earliest begin, latest end, sum of commit counts; refused only when uninitialised). Models of DevsAnalysis.MergeResults, CouplesAnalysis.MergeResults, CommonAnalysisResult.Merge and MergeReversedDictsIdentities are compared with the real code on every run; Go oracles restate the couples and summary laws, and for burndown results that the history of every merged developer is mergeMatrices of the sums of the histories of exactly its members and the interaction matrix the re-indexed sum (defects D6 and D19 found by this oracle were repaired by fix: commits).',
   note=COMMON_NOTE + 'float32 resampling in mergeMatrices is not modelled.',
   technique='Lean 4 proof + differential correspondence',
  ),
